@@ -20,13 +20,17 @@ import (
 type vdev struct {
 	name     string
 	full     bool // writes fail with ENOSPC
+	endless  bool // reads never reach an end: /dev/zero delivers zeros for ever, a pipe with a live writer blocks for ever
+	pipe     bool // a named pipe (FIFO) with a reader and a writer attached elsewhere
+	reads    int
 	replaced bool // a rename/remove replaced the device node by something else
 	content  []byte
 }
 
 func (c *Ctl) vdevs() map[string]*vdev {
 	if c.devs == nil {
-		c.devs = map[string]*vdev{"/dev/null": {name: "/dev/null"}, "/dev/full": {name: "/dev/full", full: true}}
+		c.devs = map[string]*vdev{"/dev/null": {name: "/dev/null"}, "/dev/full": {name: "/dev/full", full: true},
+			"/dev/zero": {name: "/dev/zero", endless: true}, VPipe: {name: VPipe, endless: true, pipe: true}}
 	}
 	return c.devs
 }
@@ -77,6 +81,13 @@ func denyWrite(opname, p string) error {
 	return &fs.PathError{Op: opname, Path: p, Err: errnoByName["EACCES"]}
 }
 
+// VPipe is a virtual named pipe whose other ends are held open by some consumer: writes are taken,
+// a read would wait for ever.
+const VPipe = "/run/verifsim/consumer.pipe"
+
+// Unbounded is the panic value of a read that can never finish (the harness reports the run as a hang).
+type Unbounded struct{ What string }
+
 type devInfo struct{ d *vdev }
 
 func (i devInfo) Name() string { return filepath.Base(i.d.name) }
@@ -84,6 +95,9 @@ func (i devInfo) Size() int64  { return int64(len(i.d.content)) }
 func (i devInfo) Mode() fs.FileMode {
 	if i.d.replaced {
 		return 0644
+	}
+	if i.d.pipe {
+		return fs.ModeNamedPipe | 0644
 	}
 	return fs.ModeDevice | fs.ModeCharDevice | 0666
 }
@@ -102,7 +116,22 @@ func (d *vdev) write(p []byte) (int, error) {
 	return len(p), nil
 }
 
-func (d *vdev) read(p []byte) (int, error) { return 0, io.EOF }
+func (d *vdev) read(p []byte) (int, error) {
+	if d.endless && !d.replaced {
+		if d.pipe {
+			panic(Unbounded{"read from " + d.name + " blocks for ever (a pipe whose writer never closes)"})
+		}
+		d.reads++
+		if d.reads > 256 {
+			panic(Unbounded{"reading " + d.name + " never reaches an end of file"})
+		}
+		for i := range p {
+			p[i] = 0
+		}
+		return len(p), nil
+	}
+	return 0, io.EOF
+}
 
 // realFileFor is used where an *os.File is unavoidable.
 func realNull() *os.File { f, _ := os.Open(os.DevNull); return f }
